@@ -81,3 +81,107 @@ Print Assumptions C12_nonvacuous_repaired.
 From N2kV Require Model.GroupFnDefs Proofs.GroupFnContractsB.
 Theorem C12_gf_lib_keeps_mode : gf_keeps_mode GroupFnDefs.gf_lib.  Proof. exact GroupFnContractsB.gf_lib_keeps_mode. Qed.
 Print Assumptions C12_gf_lib_keeps_mode.
+
+(* ================= the public heartbeat calls of the application (Model/ApiDefs.v) =================
+   SendHeartbeat(bool force) = api_step r (ASendHeartbeatAll force) / send_heartbeat_api / send_heartbeat_api_dev, SendHeartbeat(int iDev) =
+   api_step r (ASendHeartbeatDev iDev).  Statements: Spec/ApiHbSpec.v; proofs: Proofs/ApiHbProofs.v.  Every state, both scheduler builds. *)
+From N2kV Require Import Model.ApiDefs Spec.ApiHbSpec Proofs.ApiHbProofs.
+
+Theorem C12_api_hb_inactive_silent : api_hb_inactive_silent_stmt.  Proof. exact api_hb_inactive_silent. Qed.
+Print Assumptions C12_api_hb_inactive_silent.
+Theorem C12_api_hb_claiming_silent : api_hb_claiming_silent_stmt.  Proof. exact api_hb_claiming_silent. Qed.
+Print Assumptions C12_api_hb_claiming_silent.
+Theorem C12_api_hb_unforced_is_poll : api_hb_unforced_is_poll_stmt.  Proof. exact api_hb_unforced_is_poll. Qed.
+Print Assumptions C12_api_hb_unforced_is_poll.
+Theorem C12_api_hb_forced : api_hb_forced_stmt.  Proof. exact api_hb_forced. Qed.
+Print Assumptions C12_api_hb_forced.
+Theorem C12_api_hb_forced_grid : api_hb_forced_grid_stmt.  Proof. exact api_hb_forced_grid. Qed.
+Print Assumptions C12_api_hb_forced_grid.
+Theorem C12_api_hb_forced_payload : api_hb_forced_payload_stmt.  Proof. exact api_hb_forced_payload. Qed.
+Print Assumptions C12_api_hb_forced_payload.
+Theorem C12_api_hb_dev : api_hb_dev_stmt.  Proof. exact api_hb_dev. Qed.
+Print Assumptions C12_api_hb_dev.
+Theorem C12_api_hb_keeps_seq : api_hb_keeps_seq_stmt.  Proof. exact api_hb_keeps_seq. Qed.
+Print Assumptions C12_api_hb_keeps_seq.
+Theorem C12_api_hb_setters_keep : api_hb_setters_keep_stmt.  Proof. exact api_hb_setters_keep. Qed.
+Print Assumptions C12_api_hb_setters_keep.
+Theorem C12_api_hb_sequence : api_hb_sequence_stmt.  Proof. exact api_hb_sequence. Qed.
+Print Assumptions C12_api_hb_sequence.
+
+(* non-vacuity: a two-device node (addresses 22, 23) opened at 5202 (= SyncOffset), claims over at 5453, heartbeat 30 s / offset 2 s for
+   device 0 and 5 s / offset 0.5 s for device 1; polled at 12453 (both heartbeats, sequence 0) and 18453 (device 1, sequence 1); now 18553 *)
+Definition c12_api_cfg : rcfg :=
+  {| c_only_known := false; c_iso_handler := None; c_prodinfo := [1;2;3;4;5;6;7;8;9;10]; c_confinfo := [1;2;3]; c_hb_on := true;
+     c_inst1 := []; c_inst2 := []; c_manuf := []; c_inst_changed := false |}.
+Definition c12_api_node (w:bool) (mode:Z) : rnode :=
+  fst (rrun gf_none (cold_node w mode 5000 40 5 no_lists [mk_dev w 22 1 []; mk_dev w 23 2 []] [[]; []] c12_api_cfg)
+         [RPoll; RBase (OTick 1); RPoll; RBase (OTick 201); RPoll; RBase (OTick 251); RPoll;
+          RSetHeartbeat 30000 2000 0; RSetHeartbeat 5000 500 1; RBase (OTick 7000); RPoll; RBase (OTick 6000); RPoll; RBase (OTick 100)]).
+Definition c12_hb_state (r:rnode) : list (ssched * Z) := map (fun x => (x_hb x, x_hb_seq x)) (rx_dev r).
+Definition c12_api_ops : list xop :=
+  [XApi (ASendHeartbeatAll true); XApi (ASendHeartbeatDev 1); XApi (ASetRxList 1 [126993; 0]); XApi (ASetOnlyKnown true);
+   XApi (ASendHeartbeatAll false); XBase (RBase (OTick 2200));
+   XApi (ASetTxList 0 [126993; 0]); XApi (ASetProductInformation [49] 666 [65] [66] [67] 2 65535 255);
+   XApi (ASendHeartbeatAll false); XApi (ASendHeartbeatAll true); XBase RPoll].
+
+Example C12_api_nonvacuous :
+  let r := c12_api_node true 1 in
+  let hb0 := to_can_id 7 126993 22 255 in
+  let hb1 := to_can_id 7 126993 23 255 in
+  (* the premises of statements 3 - 5 *)
+  n_open (rn r) = 3 /\ is_active_node (rn r) = true /\ length (rx_dev r) = 2%nat /\ valid_dev r 1 = true /\
+  snd (claim_started (rn r) 0) = false /\ snd (claim_started (rn r) 1) = false /\
+  hb_now r 0 = 18553 /\ hb_now r 1 = 18553 /\ r_sync r = 5202 /\
+  c12_hb_state r = [({| ss_next := 37202; ss_offset := 2000; ss_period := 30000 |}, 1); ({| ss_next := 20702; ss_offset := 500; ss_period := 5000 |}, 2)] /\
+  (* the forced call: one frame per device, interval fields 3000 and 500 (x 10 ms), sequence byte 255; counters 1 and 2 as before; next
+     times on the grids 5202 + 2000 + k * 30000 and 5202 + 500 + k * 5000, the least points after 18553 *)
+  snd (api_step r (ASendHeartbeatAll true)) =
+    [EvTx hb0 8 [184; 11; 255; 255; 255; 255; 255; 255] true; EvTx hb1 8 [244; 1; 255; 255; 255; 255; 255; 255] true] /\
+  c12_hb_state (fst (api_step r (ASendHeartbeatAll true))) = c12_hb_state r /\
+  184 + 256 * 11 = 30000 / 10 /\ 244 + 256 * 1 = 5000 / 10 /\
+  37202 = 5202 + 2000 + 1 * 30000 /\ 20702 = 5202 + 500 + 3 * 5000 /\ ((20702 - 5000 <=? 18553) && (18553 <? 20702) && (37202 - 30000 <=? 18553) && (18553 <? 37202) = true) /\
+  (* SendHeartbeat(1): the frame of device 1, nothing changes in the device table *)
+  snd (api_step r (ASendHeartbeatDev 1)) = [EvTx hb1 8 [244; 1; 255; 255; 255; 255; 255; 255] true] /\
+  rx_dev (fst (api_step r (ASendHeartbeatDev 1))) = rx_dev r /\
+  (* a history with seven different calls: forced (2 frames), device 1 (1 frame), ExtendReceiveMessages and SetHandleOnlyKnownMessages
+     (silent), unforced (nothing is due), 2200 ms later (20753) ExtendTransmitMessages and SetProductInformation (silent), unforced
+     (device 1 is due: sequence 2, counter 2 -> 3, next time 25702), forced (2 frames, sequence 255, counter stays 3), poll (nothing) *)
+  snd (xrun gf_none r c12_api_ops) =
+    [[EvTx hb0 8 [184; 11; 255; 255; 255; 255; 255; 255] true; EvTx hb1 8 [244; 1; 255; 255; 255; 255; 255; 255] true];
+     [EvTx hb1 8 [244; 1; 255; 255; 255; 255; 255; 255] true]; []; []; []; []; []; [];
+     [EvTx hb1 8 [244; 1; 2; 255; 255; 255; 255; 255] true];
+     [EvTx hb0 8 [184; 11; 255; 255; 255; 255; 255; 255] true; EvTx hb1 8 [244; 1; 255; 255; 255; 255; 255; 255] true]; []] /\
+  c12_hb_state (fst (xrun gf_none r c12_api_ops)) =
+    [({| ss_next := 37202; ss_offset := 2000; ss_period := 30000 |}, 1); ({| ss_next := 25702; ss_offset := 500; ss_period := 5000 |}, 3)] /\
+  (* the 32-bit scheduler build does the same *)
+  snd (xrun gf_none (c12_api_node false 1) c12_api_ops) = snd (xrun gf_none r c12_api_ops) /\
+  c12_hb_state (fst (xrun gf_none (c12_api_node false 1) c12_api_ops)) = c12_hb_state (fst (xrun gf_none r c12_api_ops)) /\
+  (* the same node in mode ListenAndSend (4): open, schedules set, and silent - nothing is sent, nothing changes *)
+  let r4 := c12_api_node true 4 in
+  n_open (rn r4) = 3 /\ is_active_node (rn r4) = false /\
+  api_step r4 (ASendHeartbeatAll true) = (r4, []) /\ api_step r4 (ASendHeartbeatAll false) = (r4, []) /\
+  api_step r4 (ASendHeartbeatDev 0) = (r4, []) /\ api_step r4 (ASendHeartbeatDev 1) = (r4, []) /\
+  snd (xrun gf_none r4 c12_api_ops) = [[]; []; []; []; []; []; []; []; []; []; []] /\
+  (* the setters did what they say (statement 6b is about calls that do change the state) *)
+  x_rx (get_devx (fst (xrun gf_none r c12_api_ops)) 1) = [126993; 0] /\ d_tx (get_dev (rn (fst (xrun gf_none r c12_api_ops))) 0) = [126993; 0] /\
+  c_only_known (r_cfg (fst (xrun gf_none r c12_api_ops))) = true /\ length (c_prodinfo (r_cfg (fst (xrun gf_none r c12_api_ops)))) = 134%nat.
+Proof. vm_compute. repeat split. Qed.
+Print Assumptions C12_api_nonvacuous.
+
+(* observation (behaviour of the library as it is, reproduced on the C++ in both builds): a forced heartbeat recomputes the schedule also
+   of a device whose heartbeat had been switched off with interval 0 (api_hb_forced_grid_stmt has no premise on the old next time) - after
+   SetHeartbeatIntervalAndOffset(0) nothing is sent at 58553, SendHeartbeat(true) sends the two frames, and 40 s later ParseMessages sends
+   scheduled heartbeats (sequence 1 and 2) again *)
+Example C12_api_forced_restarts_disabled :
+  let r := fst (rstep gf_none (c12_api_node true 1) (RSetHeartbeat 0 0 (-1))) in
+  let ops := [XBase (RBase (OTick 40000)); XBase RPoll; XApi (ASendHeartbeatAll true); XBase (RBase (OTick 40000)); XBase RPoll] in
+  map (fun p => ss_next (fst p)) (c12_hb_state r) = [ss_disabled; ss_disabled] /\
+  snd (xrun gf_none r ops) =
+    [[]; [];
+     [EvTx (to_can_id 7 126993 22 255) 8 [184; 11; 255; 255; 255; 255; 255; 255] true; EvTx (to_can_id 7 126993 23 255) 8 [244; 1; 255; 255; 255; 255; 255; 255] true];
+     [];
+     [EvTx (to_can_id 7 126993 22 255) 8 [184; 11; 1; 255; 255; 255; 255; 255] true; EvTx (to_can_id 7 126993 23 255) 8 [244; 1; 2; 255; 255; 255; 255; 255] true]] /\
+  c12_hb_state (fst (xrun gf_none r ops)) =
+    [({| ss_next := 127202; ss_offset := 2000; ss_period := 30000 |}, 2); ({| ss_next := 100702; ss_offset := 500; ss_period := 5000 |}, 3)].
+Proof. vm_compute. repeat split. Qed.
+Print Assumptions C12_api_forced_restarts_disabled.
